@@ -111,6 +111,54 @@ def table_calls(ctx, body, blocks=None):
     return out
 
 
+def rule_timer_cancel(ctx, res):
+    """Timer::cancel(t): whether t is the armed entry or waits in the queue, it is gone afterwards and the result says so.
+    (The refresh chain and the search timeouts cancel through this: a cancel that silently fails leaves a second timer alive.)"""
+    from .lib import Sym, Table, BOOL, Lost, literal, strip_transparent, find_calls, field_chain, is_param, root_of, option_is_some, term_int, agg_variant, fmt
+    cands = [b for b in ctx.f.body_list if b.path.startswith('timer::Timer') and b.path.endswith('::cancel') and b.kind in ('fn', 'method')]
+    if len(cands) != 1:
+        raise Lost('Timer::cancel not found')
+    b = cands[0]
+    res.touch(b)
+    s = Sym(b)
+    s.run()
+    res.paths += len(s.paths)
+
+    def classify(lit, c):
+        rel, a, b2, truth = lit
+        if rel == 'variant' and field_chain(strip_transparent(a)) == ['current'] and is_param(root_of(strip_transparent(a)), 'self'):
+            return ('armed', bool(option_is_some(b2)))
+        if rel == 'bool' and isinstance(a, tuple) and a[0] == 'call' and a[1].split('::')[-1] in ('is_some', 'is_none') and field_chain(strip_transparent(a[2][0])) == ['current'] and truth is not None:
+            return ('armed', (a[1].split('::')[-1] == 'is_some') == bool(truth))
+        if rel == 'eq' and truth is not None:
+            for x, y in ((a, b2), (b2, a)):
+                if isinstance(x, tuple) and x[0] == 'call' and x[1].split('::')[-1] == 'key' and is_param(strip_transparent(y), 'timeout') \
+                        and any(isinstance(z, tuple) and len(z) == 3 and z[0] == 'field' and z[2] == 'current' and is_param(root_of(z), 'self') for z in lib.term_walk(x[2][0])):
+                    return ('is_it', bool(truth))
+        if rel == 'bool' and term_int(a) is not None:
+            return None
+        raise Lost('Timer::cancel: unrecognised condition %s %s' % (rel, fmt(a)[:80]))
+
+    def outcome(p):
+        cleared = any(e[0] == 'write' and field_chain(strip_transparent(e[1])) == ['current'] and agg_variant(e[2]) == 'None' for e in p.effects)
+        rem = [e for e in p.effects if e[0] == 'call' and e[1] and e[1].split('::')[-1] == 'remove' and field_chain(strip_transparent(e[2][0])) == ['queue'] and is_param(strip_transparent(e[2][1]), 'timeout')]
+        r = p.ret
+        if cleared and not rem and term_int(r) == 1:
+            return 'armed entry dropped, true'
+        if not cleared and len(rem) == 1 and isinstance(r, tuple) and r[0] == 'call' and r[1].split('::')[-1] == 'is_some' and find_calls(r, '::remove'):
+            return 'removed from the queue, found?'
+        return 'other: cleared=%s removes=%d ret=%s' % (cleared, len(rem), fmt(r)[:40])
+
+    try:
+        tab = Table.build(s.complete_paths(), classify, outcome)
+        bad, n = tab.compare({'armed': BOOL, 'is_it': BOOL}, lambda v: 'armed entry dropped, true' if (v['armed'] and v['is_it']) else 'removed from the queue, found?',
+                             consistent=lambda v: v['armed'] or not v['is_it'])
+        res.check(not bad, 'TABLE', b.path, 'cancel(t): t armed -> the armed entry is dropped, true; otherwise (nothing armed, or something else armed) -> t is removed from the queue, result = whether it was there',
+                  detail='; '.join('%s -> got %s want %s' % x for x in bad[:3]), key='timer-cancel')
+    except Lost as e:
+        res.bad('TABLE', b.path, 'cancel(t) drops the armed entry or removes t from the queue', detail=str(e), key='timer-cancel')
+
+
 def rule_no_addr_canonicalisation(ctx, res):
     """IP identity: an address is used as it arrived.  The library never folds one address into another
     (`to_canonical`, `to_ipv4`, `to_ipv4_mapped`, `to_ipv6_mapped`, `to_ipv6_compatible`): tokens are bound to the exact
